@@ -188,13 +188,13 @@ func run(r *core.Run) {
 	guard := func(op string, in []byte, line string, isolated bool) {
 		var out string
 		if isolated {
-			out = r.ImplIsolated(line, 20*time.Second)
+			out = r.ImplIsolated(line, 180*time.Second)
 		} else {
 			done := make(chan string, 1)
 			go func() { done <- r.Impl(line) }()
 			select {
 			case out = <-done:
-			case <-time.After(10 * time.Second):
+			case <-time.After(120 * time.Second):
 				out = "timeout"
 			}
 		}
@@ -279,6 +279,17 @@ func run(r *core.Run) {
 		}
 		r.Begin("asn1-"+core.Hex(x), len(x) > 0, "stream:asn1")
 		guard("C14.asn1", x, "C14.asn1 "+core.Hex(x), false)
+	}
+	// 3b. bytea text decoders (modelled in Wire/Bytea.lean): multi-byte characters × complete/truncated escapes, bad hex
+	for _, ch := range []string{"é", "€", "😀", "éé", "a€b", ""} {
+		for _, tail := range []string{"\\", "\\1", "\\12", "\\123", "\\12x", "\\\\", "\\1é", "x\\12", "\\x", "\\x4", "\\xZZ"} {
+			b := []byte(ch + tail)
+			r.Begin("bytea-"+core.Hex(b), true, "stream:bytea-boundary")
+			for _, op := range []string{"C12.bytea.octal.dec ", "C12.bytea.escaped.dec "} {
+				out := r.Do(op + core.Hex(b))
+				r.Check(out != core.Panic, "panic:"+strings.TrimSpace(op), fmt.Sprintf("%s panics on %q", op, b))
+			}
+		}
 	}
 	// 4. sweep of the modelled envelope decoders on garbage / tag-rich input, compared with the model
 	kv := env.NewKV(rd, 1, 1)
